@@ -1,5 +1,5 @@
 (* Driver for the extracted model: reads history files (format: FORMAT.md),
-   runs the Coq-extracted [zstep] and prints one trace line per step, in
+   runs the Coq-extracted [tstep] and prints one trace line per step, in
    exactly the format the Rust harness prints for the implementation. *)
 open Model
 
@@ -55,8 +55,13 @@ let cur_size : int ref = ref 0
 let cur_post : (string * int) option ref = ref None
 let buf = Buffer.create 65536
 let pr s = Buffer.add_string buf s
+(* a priority is (value, tag): ordered and compared by value; the tag is printed
+   only when it is not 0 *)
+let pr_prio (v, t) =
+  pr (string_of_z v);
+  (match t with Z0 -> () | _ -> pr "/"; pr (string_of_z t))
 let pr_elem ((k, pl), p) =
-  pr (string_of_z k); pr ":"; pr (string_of_z pl); pr ":"; pr (string_of_z p)
+  pr (string_of_z k); pr ":"; pr (string_of_z pl); pr ":"; pr_prio p
 let pr_list sep f l =
   pr "["; List.iteri (fun i x -> if i > 0 then pr sep; f x) l; pr "]"
 let pr_nat n = pr (string_of_int (int_of_nat n))
@@ -77,7 +82,7 @@ let pr_out = function
   | OutNat n -> pr "nat "; pr_nat n
   | OutN n -> pr "n "; pr (string_of_n n)
   | OutOptP None -> pr "optp -"
-  | OutOptP (Some p) -> pr "optp "; pr (string_of_z p)
+  | OutOptP (Some p) -> pr "optp "; pr_prio p
   | OutOptE None -> pr "opte -"
   | OutOptE (Some e) -> pr "opte "; pr_elem e
   | OutList l -> pr "list "; pr_list "," pr_elem l
@@ -129,13 +134,17 @@ let kind_of = function "pq" -> KPQ | "dpq" -> KDPQ | s -> raise (Bad ("kind " ^ 
 let side_of = function "min" -> SMin | "max" -> SMax | s -> raise (Bad ("side " ^ s))
 let nat_s s = nat_of_int (int_of_string s)
 let item k pl = (z_of_string k, z_of_string pl)
+let prio_of s = match String.index_opt s '/' with
+  | Some i -> (z_of_string (String.sub s 0 i), z_of_string (String.sub s (i + 1) (String.length s - i - 1)))
+  | None -> (z_of_string s, Z0)
 let lookup_payload = "-1"
 let opt_z s = if s = "-" then None else Some (z_of_string s)
+let opt_p s = if s = "-" then None else Some (prio_of s)
 
 let rec triples n toks acc =
   if n = 0 then (List.rev acc, toks) else
   match toks with
-  | k :: pl :: p :: rest -> triples (n - 1) rest ((item k pl, z_of_string p) :: acc)
+  | k :: pl :: p :: rest -> triples (n - 1) rest ((item k pl, prio_of p) :: acc)
   | _ -> raise (Bad "triples")
 
 let hint lo hi = (n_of_string lo, (if hi = "-" then None else Some (n_of_string hi)))
@@ -162,8 +171,8 @@ let iend_of s = match split_colon s with
 let istep_of s = match split_colon s with
   | ["n"] -> INext ((fun p -> p), (fun i -> i))
   | ["b"] -> INextBack ((fun p -> p), (fun i -> i))
-  | ["n"; w; pl] -> INext (upd_prio (opt_z w), upd_item (opt_z pl))
-  | ["b"; w; pl] -> INextBack (upd_prio (opt_z w), upd_item (opt_z pl))
+  | ["n"; w; pl] -> INext (upd_prio (opt_p w), upd_item (opt_z pl))
+  | ["b"; w; pl] -> INextBack (upd_prio (opt_p w), upd_item (opt_z pl))
   | ["l"] -> ILen | ["s"] -> ISizeHint
   | _ -> raise (Bad ("istep " ^ s))
 (* [nth:K] / [nthb:K]: std's default nth / nth_back are K+1 calls of next /
@@ -204,8 +213,8 @@ let script toks = match toks with
   | _ -> raise (Bad "script")
 
 (* predicate tables for retain: key -> (write, keep), with a default verdict *)
-let pred_of_table (dflt : bool) (tbl : (z * (z option * bool)) list) =
-  fun ((k, pl) : item) (p : z) ->
+let pred_of_table (dflt : bool) (tbl : (z * ((z * z) option * bool)) list) =
+  fun ((k, pl) : item) (p : z * z) ->
     let rec find = function
       | [] -> (((k, pl), p), dflt)
       | (k', (w, keep)) :: rest ->
@@ -213,7 +222,7 @@ let pred_of_table (dflt : bool) (tbl : (z * (z option * bool)) list) =
           else find rest in
     find tbl
 
-let rec parse_op toks : zop =
+let rec parse_op toks : top =
   match toks with
   | ["new"; k; r] -> ONew (kind_of k, nat_s r)
   | ["withcap"; k; r; c] -> OWithCap (kind_of k, nat_s r, n_of_string c)
@@ -222,18 +231,18 @@ let rec parse_op toks : zop =
   | "fromiter" :: k :: r :: lo :: hi :: n :: rest ->
       let (l, _) = triples (int_of_string n) rest [] in
       OFromIter (kind_of k, nat_s r, l, hint lo hi)
-  | ["push"; r; k; pl; p] -> OPush (nat_s r, item k pl, z_of_string p)
-  | ["pushinc"; r; k; pl; p] -> OPushInc (nat_s r, item k pl, z_of_string p)
-  | ["pushdec"; r; k; pl; p] -> OPushDec (nat_s r, item k pl, z_of_string p)
-  | ["chg"; r; k; p] -> OChange (nat_s r, item k lookup_payload, z_of_string p)
-  | ["chgby"; r; k; p] -> let p = z_of_string p in OChangeBy (nat_s r, item k lookup_payload, (fun _ -> p))
-  | ["chgadd"; r; k; d] -> let d = z_of_string d in OChangeBy (nat_s r, item k lookup_payload, (fun p -> Z.add p d))
+  | ["push"; r; k; pl; p] -> OPush (nat_s r, item k pl, prio_of p)
+  | ["pushinc"; r; k; pl; p] -> OPushInc (nat_s r, item k pl, prio_of p)
+  | ["pushdec"; r; k; pl; p] -> OPushDec (nat_s r, item k pl, prio_of p)
+  | ["chg"; r; k; p] -> OChange (nat_s r, item k lookup_payload, prio_of p)
+  | ["chgby"; r; k; p] -> let p = prio_of p in OChangeBy (nat_s r, item k lookup_payload, (fun _ -> p))
+  | ["chgadd"; r; k; d] -> let d = z_of_string d in OChangeBy (nat_s r, item k lookup_payload, (fun (v, t) -> (Z.add v d, t)))
   | ["remove"; r; k] -> ORemove (nat_s r, item k lookup_payload)
   | ["peek"; r; s] -> OPeek (nat_s r, side_of s)
   | ["peekmut"; r; s; pl] -> OPeekMut (nat_s r, side_of s, set_payload (z_of_string pl))
   | ["pop"; r; s] -> OPop (nat_s r, side_of s)
   | ["popif"; r; s; w; pl; b] ->
-      let w = opt_z w and pl = opt_z pl and b = (b = "1") in
+      let w = opt_p w and pl = opt_z pl and b = (b = "1") in
       OPopIf (nat_s r, side_of s, (fun i p -> ((upd_item pl i, upd_prio w p), b)))
   | ["get"; r; k] -> OGet (nat_s r, item k lookup_payload)
   | ["getprio"; r; k] -> OGetPrio (nat_s r, item k lookup_payload)
@@ -249,7 +258,7 @@ let rec parse_op toks : zop =
   | "retainmut" :: r :: d :: n :: rest ->
       let rec go n toks acc = if n = 0 then List.rev acc else
         match toks with
-        | k :: w :: keep :: rest -> go (n - 1) rest ((z_of_string k, (opt_z w, keep = "1")) :: acc)
+        | k :: w :: keep :: rest -> go (n - 1) rest ((z_of_string k, (opt_p w, keep = "1")) :: acc)
         | _ -> raise (Bad "retainmut") in
       ORetain (nat_s r, pred_of_table (d = "1") (go (int_of_string n) rest []))
   | "itermut" :: r :: rest -> let (a, s, e) = script rest in OIterMut (nat_s r, a, s, e)
@@ -310,7 +319,7 @@ let bfs kind nkeys nprios maxstates outfile =
   add "retainmut 0 1 1 0 - 0"; add "retainmut 0 1 1 1 0 1";
   add (Printf.sprintf "itermut 0 direct drop 1 n:%d:-" (nprios - 1)); add "itermut 0 direct drop 2 n n:0:-";
   let ops = List.rev !ops in
-  let m0 = fst (zstep O (init_machine (nat_of_int 1)) (parse_op ["new"; kind; "0"])) in
+  let m0 = fst (tstep O (tinit_machine (nat_of_int 1)) (parse_op ["new"; kind; "0"])) in
   let seen = Hashtbl.create 100000 in
   Hashtbl.replace seen (state_key m0) ();
   let q = Queue.create () in
@@ -320,7 +329,7 @@ let bfs kind nkeys nprios maxstates outfile =
     let (m, path) = Queue.pop q in
     List.iter (fun o ->
       let toks = String.split_on_char ' ' o in
-      let (m', out) = zstep O m (parse_op toks) in
+      let (m', out) = tstep O m (parse_op toks) in
       (* one history per (state, op) *)
       output_string oc (Printf.sprintf "H %d 0 1\nnew %s 0\n" !hid kind);
       List.iter (fun x -> output_string oc x; output_char oc '\n') (List.rev path);
@@ -348,7 +357,7 @@ let () =
   end;
   let ic = if Array.length Sys.argv > 1 then open_in Sys.argv.(1) else stdin in
   let oc = if Array.length Sys.argv > 2 then open_out Sys.argv.(2) else stdout in
-  let m = ref (init_machine (nat_of_int 4)) in
+  let m = ref (tinit_machine (nat_of_int 4)) in
   let mode = ref O in
   let dead = ref false in
   (try
@@ -362,7 +371,7 @@ let () =
            let hm, nr = (match rest with
              | hm :: nr :: _ -> (int_of_string hm, int_of_string nr)
              | _ -> (0, 4)) in
-           mode := nat_of_int hm; m := init_machine (nat_of_int nr); dead := false;
+           mode := nat_of_int hm; m := tinit_machine (nat_of_int nr); dead := false;
            pr "H "; pr id; pr "\n"
        | _ ->
            if not !dead then begin
@@ -377,7 +386,7 @@ let () =
                    | None -> 0)
                | _ -> 0);
              let o = parse_op toks in
-             let (m', out) = zstep !mode !m o in
+             let (m', out) = tstep !mode !m o in
              m := m';
              pr_line out (int_of_nat (total_ticks m')) m';
              if is_fault out then dead := true
